@@ -4,7 +4,11 @@
    underline2 frame encircle overline).  A style observation ("out") is [ok, st, err]; st is the lexical
    projection of the real object (public getters only), err the exception class name.
 
-   Every record has   k     the kind: "triple" | "route" | "gram" | "class"
+   Every record has   k     the kind: "triple" | "route" | "gram" | "class" | "pool" (styles that carry the same terminal
+                            colour in different documented spellings - red / color(1) / Color.from_ansi(1), #af00ff /
+                            rgb(175,0,255) / Color.from_rgb - alone and under equal attributes and links: whether two of
+                            them are == is the library's choice, the statement only demands equal hashes and dict / set
+                            interchangeability WHEN they are; nothing implementation-shaped is compared)
                       objs  projections of real Style objects
                       pairs [i, j, eq, heq]:  objs[i] == objs[j]  and  hash(..) == hash(..) as observed
                       rts   [i, str, back, eq, nback, neq]: str = tokens of str(x) for x = objs[i],
@@ -157,7 +161,7 @@ Drift(r) ==
                  [] r.k = "gram"  -> GramDrift(r)
                  [] r.k = "class" -> IF \E i \in 1..Len(r.objs) : ~Same(r.objs[i], r.val) THEN "member-differs" ELSE "ok"
                  [] OTHER -> "ok"
-    IN IF own # "ok" THEN own ELSE CommonDrift(r)
+    IN IF r.k = "pool" THEN "ok" ELSE IF own # "ok" THEN own ELSE CommonDrift(r)
 Verdict(r) == IF Prop(r) # "ok" THEN Prop(r) ELSE IF Drift(r) # "ok" THEN "drift " \o Drift(r) ELSE "ok"
 
 Report == PrintT(<<"VERDICT", tid, Verdict(Recs[tid])>>)
